@@ -1235,7 +1235,10 @@ mod convert {
                 return Err(ConvertError::MissingCompilationName);
             };
 
-            if from_header.line_base() > 0 {
+            if from_header.line_base() > 0
+                || line_encoding.line_base > 0
+                || i16::from(line_encoding.line_base) + i16::from(line_encoding.line_range) <= 0
+            {
                 return Err(ConvertError::InvalidLineBase);
             }
             let mut program = LineProgram::new(
